@@ -5,7 +5,7 @@ From Coq Require Import NArith ZArith List Bool Lia.
 Import ListNotations.
 From CA Require Import Model.Lexer Model.Parser Model.Literal Model.BigIntOps Model.Evaluator Model.Matcher Model.Resolver
   Model.StaticKnown Model.ResolverS Spec.StaticSpec Proofs.EvalSemP Proofs.EvalMonoP Proofs.ResolverFixP Proofs.ResolverMonoP
-  Proofs.ResolverTopP Proofs.CertUniqueP Proofs.StaticKnownP Proofs.ResolverSSimP Proofs.ResolverSPreP Proofs.ResolverSSwitchP Proofs.ResolverSFrameP.
+  Proofs.ResolverTopP Proofs.CertUniqueP Proofs.StaticKnownP Proofs.ResolverSSimP Proofs.ResolverSPreP Proofs.ResolverSSwitchP Proofs.ResolverSFrameP Proofs.ResolverSBadP.
 Open Scope Z_scope.
 
 (* ---------- the tables of flags ---------- *)
@@ -240,11 +240,45 @@ Proof.
 Qed.
 End Runs.
 
+(* ---------- a statically known data element that fails its directive's checks ---------- *)
+Lemma loopS_bad names defs K opt ns w el d e : reserved_free names ->
+  In (NData w el) ns -> In (d, e) el -> data_known e = true -> elem_strict_ok w e = false -> flag (k_data K) d = true ->
+  NoDup (dids ns) -> forall k i max x r, flag (fz_data x) d = false -> loopS names defs K opt ns k i max x = EOk r -> False.
+Proof.
+  intros Hres Hn He Hk Hs Hkd Hnd k i max x r Fd H. destruct k as [|k]; cbn [loopS] in H.
+  - destruct (passS names defs K opt false true ns x 0 Resolved) as [[x' r']|] eqn:E; [|discriminate].
+    eapply (passS_bad names Hres K opt false true defs w el d e); eauto.
+  - destruct (passS names defs K opt (Nat.eqb (S i) 1) (Nat.eqb (S i) max) ns x 0 Resolved) as [[x' r']|] eqn:E; [|discriminate].
+    eapply (passS_bad names Hres K opt (Nat.eqb (S i) 1) (Nat.eqb (S i) max) defs w el d e); eauto.
+Qed.
+
+Lemma bad_all_fail indexed defs names ns ac pc opt b w el d e :
+  reserved_free names -> canonical (length names) ns -> (opt = true -> consts_asm_free ns) ->
+  bad_elem ns w el d e ->
+  assembleS ac pc opt indexed defs names ns b = None /\ assemble indexed defs names ns b = None.
+Proof.
+  intros Hres Hcanon Hasm (Hn & He & Hk & Hs). split.
+  - unfold assembleS. destruct (init_state indexed defs (length names) ns) as [st0|] eqn:E0; [|reflexivity].
+    set (K := known_info ac pc defs names ns st0).
+    pose proof (pre_sim names ns K opt (HKsym defs names ns ac pc st0) Hasm (fun _ => proj1 Hcanon) (S (length ns)) (init_sstate st0) 0%nat
+                  (pinv0 ns opt st0)) as H.
+    cbn [ss init_sstate] in H.
+    destruct (simple_loop (S (length ns)) names ns st0 0) as [st1|]; [|rewrite H; reflexivity].
+    destruct H as (x1 & H1 & _ & _ & _ & H5). rewrite H1.
+    destruct (loopS names defs K opt ns b 0 b x1) as [[x n]|] eqn:EL; [|reflexivity]. exfalso.
+    eapply (loopS_bad names defs K opt ns w el d e Hres Hn He Hk Hs); [| |rewrite H5; cbn [init_sstate fz_data]; apply flag_repeat_false|exact EL].
+    + unfold K, known_info. cbn [k_data]. rewrite (kdata_spec ns (proj1 (proj2 (proj2 Hcanon))) w el d e Hn He). exact Hk.
+    + destruct Hcanon as (_ & _ & H3 & _). rewrite H3. apply seq_NoDup.
+  - destruct (assemble indexed defs names ns b) as [[[o s] n]|] eqn:EA; [|reflexivity]. exfalso.
+    destruct (assemble_certificate _ _ _ _ _ _ _ _ (canonical_distinct _ _ Hcanon) EA) as (st & Hc & _).
+    unfold Certified in Hc. eapply (pass_bad names Hres defs w el d e He Hk Hs ns Hn); exact Hc.
+Qed.
+
 Lemma ft {P : Prop} : false = true -> P.
 Proof. discriminate. Qed.
 
 (* with the optimisation off, the model with flags is the model without *)
-Theorem assembleS_off ac pc indexed defs names ns b :
+Theorem assembleS_off_ok ac pc indexed defs names ns b :
   reserved_free names -> canonical (length names) ns -> data_static_ok ns ->
   assembleS ac pc false indexed defs names ns b = assemble indexed defs names ns b.
 Proof.
@@ -253,6 +287,16 @@ Proof.
   - destruct (Hn b) as [-> ->]. reflexivity.
   - destruct (Hb b) as [-> ->]. apply lockstep_out.
     apply (loop_off names defs ns _ Hres HKs HKd false Hok ft b x1 eq_refl HI).
+Qed.
+
+Theorem assembleS_off ac pc indexed defs names ns b :
+  reserved_free names -> canonical (length names) ns ->
+  assembleS ac pc false indexed defs names ns b = assemble indexed defs names ns b.
+Proof.
+  intros Hres Hcanon. destruct (data_static_okb ns) eqn:Eok.
+  - apply assembleS_off_ok; auto. apply okb_true. exact Eok.
+  - destruct (okb_false ns Eok) as (w & el & d & e & Hbad).
+    destruct (bad_all_fail indexed defs names ns ac pc false b w el d e Hres Hcanon ft Hbad) as [-> ->]. reflexivity.
 Qed.
 
 Definition counts_ok (n n' : nat) : Prop := n' = n \/ (n = 1%nat /\ n' = 2%nat).
@@ -271,7 +315,7 @@ Hypothesis Hkd : matches_kinded indexed defs ns.
 Notation AT b := (assembleS true true true indexed defs names ns b).
 Notation AF b := (assemble indexed defs names ns b).
 
-Lemma cases b :
+Lemma cases_ok b :
   AT b = AF b \/
   (exists o s, (1 <= b)%nat /\ AT b = Some (o, s, 1%nat) /\ (b = 1%nat -> AF b = None) /\ ((2 <= b)%nat -> AF b = Some (o, s, 2%nat)) /\
                exists st, Certified names defs ns st /\ s = s_sym st /\ o = build_output ns st) \/
@@ -320,6 +364,22 @@ Proof.
 Qed.
 End Switch.
 
+Lemma cases indexed defs names ns :
+  reserved_free names -> canonical (length names) ns -> consts_asm_free ns -> matches_kinded indexed defs ns ->
+  forall b,
+  assembleS true true true indexed defs names ns b = assemble indexed defs names ns b \/
+  (exists o s, (1 <= b)%nat /\ assembleS true true true indexed defs names ns b = Some (o, s, 1%nat) /\
+               (b = 1%nat -> assemble indexed defs names ns b = None) /\
+               ((2 <= b)%nat -> assemble indexed defs names ns b = Some (o, s, 2%nat)) /\
+               exists st, Certified names defs ns st /\ s = s_sym st /\ o = build_output ns st) \/
+  ((2 <= b)%nat /\ assembleS true true true indexed defs names ns b = None /\ assemble indexed defs names ns b = None).
+Proof.
+  intros Hres Hcanon Hasm Hkd b. destruct (data_static_okb ns) eqn:Eok.
+  - apply cases_ok; auto. apply okb_true. exact Eok.
+  - destruct (okb_false ns Eok) as (w & el & d & e & Hbad).
+    destruct (bad_all_fail indexed defs names ns true true true b w el d e Hres Hcanon (fun _ => Hasm) Hbad) as [-> ->]. now left.
+Qed.
+
 (* ---------- the switch theorem, stated between the two settings of the same model ---------- *)
 Section SwitchStatements.
 Variable indexed : bool.
@@ -328,7 +388,6 @@ Variable names : list text.
 Variable ns : list node.
 Hypothesis Hres : reserved_free names.
 Hypothesis Hcanon : canonical (length names) ns.
-Hypothesis Hok : data_static_ok ns.
 Hypothesis Hasm : consts_asm_free ns.
 Hypothesis Hkd : matches_kinded indexed defs ns.
 
@@ -340,7 +399,7 @@ Theorem static_switch_cases b :
   (exists o s, (1 <= b)%nat /\ ON b = Some (o, s, 1%nat) /\ (b = 1%nat -> OFF b = None) /\ ((2 <= b)%nat -> OFF b = Some (o, s, 2%nat)) /\
                exists st, Certified names defs ns st /\ s = s_sym st /\ o = build_output ns st) \/
   ((2 <= b)%nat /\ ON b = None /\ OFF b = None).
-Proof. rewrite (assembleS_off true true indexed defs names ns b Hres Hcanon Hok). apply cases; assumption. Qed.
+Proof. rewrite (assembleS_off true true indexed defs names ns b Hres Hcanon). apply cases; assumption. Qed.
 
 Theorem static_switch_same_result b o s n o' s' n' :
   ON b = Some (o, s, n) -> OFF b = Some (o', s', n') -> o = o' /\ s = s' /\ counts_ok n n'.
@@ -396,7 +455,7 @@ Theorem static_on_certified b o s n :
   ON b = Some (o, s, n) -> exists st, Certified names defs ns st /\ s = s_sym st /\ o = build_output ns st.
 Proof.
   intro H1. destruct (static_switch_cases b) as [E|[(o0 & s0 & _ & E1 & _ & _ & Hc)|(_ & E1 & _)]].
-  - rewrite E, (assembleS_off true true indexed defs names ns b Hres Hcanon Hok) in H1.
+  - rewrite E, (assembleS_off true true indexed defs names ns b Hres Hcanon) in H1.
     destruct (assemble_certificate _ _ _ _ _ _ _ _ (canonical_distinct _ _ Hcanon) H1) as (st & Hc & Hs & Ho & _). eauto.
   - rewrite E1 in H1. inversion H1; subst. exact Hc.
   - rewrite E1 in H1. discriminate.
